@@ -2,6 +2,7 @@
     compositional way.  Only statements; proofs are [exact <lemma>]. *)
 Require Import AT.Model.Base AT.Model.Rose AT.Model.Iter AT.Spec.IterSpec.
 Require AT.Proofs.IterPre AT.Proofs.IterPost AT.Proofs.IterLevel AT.Proofs.IterC05 AT.Proofs.IterOrder.
+Require AT.Model.Heap AT.Model.Abs AT.Spec.MutSpec AT.Proofs.ForestCover.
 From Coq Require Import Permutation.
 Local Open Scope Z_scope.
 
@@ -67,6 +68,22 @@ Theorem C06_order_level : forall stop ml t, NoDup (preorder t) ->
   concat (levels_forest (prune stop ml 0 t)) = filter (mem (IterOrder.admitted stop ml t)) (levelorder t).
 Proof. exact IterOrder.order_level. Qed.
 Print Assumptions C06_order_level.
+
+(** the hypothesis is met by every tree the library can produce: for the
+    unfolding below any node of any consistent link state (C01) the three
+    relative-order statements hold outright *)
+Theorem C06_order_on_every_forest : forall h, AT.Spec.MutSpec.Inv h -> forall r stop ml,
+  let t := AT.Model.Abs.tree_of h r in
+  flat_map preorder (prune stop ml 0 t) = filter (mem (IterOrder.admitted stop ml t)) (preorder t) /\
+  flat_map postorder (prune stop ml 0 t) = filter (mem (IterOrder.admitted stop ml t)) (postorder t) /\
+  concat (levels_forest (prune stop ml 0 t)) = filter (mem (IterOrder.admitted stop ml t)) (levelorder t).
+Proof.
+  intros h I r stop ml t. pose proof (AT.Proofs.ForestCover.tree_of_nodup h I r) as N. split; [|split].
+  - exact (IterOrder.order_pre stop ml t N).
+  - exact (IterOrder.order_post stop ml t N).
+  - exact (IterOrder.order_level stop ml t N).
+Qed.
+Print Assumptions C06_order_on_every_forest.
 
 (** all five visit the same nodes (as multisets) *)
 Theorem C06_same_set : forall f stop ml t,
